@@ -32,7 +32,24 @@ def gen(tier, rng):
     base = vlib.seed() * 100000
     progs = xlib.template_programs(rng) + xlib.opctx_programs(rng, sample=sample) + \
         [('rand%d' % (base + s), xlib.random_program(base + s)) for s in range(nrand)]
-    return xlib.make_cases(progs, rng)
+    cases = xlib.make_cases(progs, rng)
+    # the repository's own X programs: ORIGINAL source text to the compiler, independently parsed AST to XLang
+    import xparse, corpus
+    for path in corpus.repo_sources_x():
+        name = os.path.basename(path)
+        if name == "xhexb.x":
+            continue            # 3000 lines, millions of steps: beyond TLC's reach (DESIGN I.9)
+        text = open(path, encoding="latin-1").read()
+        try:
+            P = xparse.parse(text)
+        except xparse.ParseError:
+            P = None
+        if P is None or 'main' not in P['procs']:
+            continue
+        for j, inp in enumerate([[97], [], [255, 1]] if name == "echo_char.x" else [[]]):
+            cases.append({'id': 'file:%s%s' % (name, '' if j == 0 else '#%d' % j), 'src': text, 'input': inp, 'maxsteps': 3000000,
+                          'prog': xlib.export(P, inp, "ideal", 400000, 400)})
+    return cases
 
 
 def judge(chk, cases, res, verd, pid=PID):
@@ -128,6 +145,7 @@ def run(tier, replay=None):
         chk.set("distinct_nontrivial", ok)
         fam = collections.Counter(family(c['id']) for c, v in zip(cases, verd) if v['v'] == 'ok')
         chk.set("ok_by_family", dict(fam))
+        chk.set("repository_programs", {c['id']: v['v'] + (":" + v['why'] if v['why'] else "") for c, v in zip(cases, verd) if c['id'].startswith('file:')})
         chk.set("rule", "one case per (program, input); programs from the operator x leaf-kind x context enumeration (seeded half of the leaf pairs "
                         "in quick, all in thorough), structural templates and seeded random programs; non-trivial = XLang runs it to an exit "
                         "without undefinedness and the observed behaviour was compared")
